@@ -6,6 +6,7 @@ use serde_json::Value;
 
 mod address;
 mod c10;
+mod c12;
 mod c16;
 mod decode;
 mod packet_window;
@@ -49,6 +50,9 @@ fn dispatch(entry: &str, spec: &Value) -> Result<Option<String>, String> {
         "vmess_matching" => c10::vmess_matching(spec),
         "mode_bytes" => c10::mode_bytes(spec),
         "salt_retention" => c10::salt_retention(spec),
+        "increasing_nonce" => c12::increasing_nonce(spec),
+        "counting_nonce" => c12::counting_nonce(spec),
+        "packet_id_wrap" => c12::packet_id_wrap(spec),
         "mode_predicate" => c16::mode_predicate(spec),
         "kind_predicate" => c16::kind_predicate(spec),
         "dispatch" => c16::dispatch(spec),
